@@ -12,13 +12,13 @@ CHECK = {
     "tests": [
         T("susclock", "TestC11SuspendableClockTimeline",
           {"checks": 40000, "shards": 2, "timeout": 300},
-          {"checks": 400000, "shards": 16, "timeout": 1500}),
+          {"checks": 250000, "shards": 16, "timeout": 1200}),
         T("susclock", "TestC11SuspendingDecorators",
           {"checks": 20000, "shards": 2, "timeout": 300},
-          {"checks": 150000, "shards": 16, "timeout": 1500}),
+          {"checks": 80000, "shards": 16, "timeout": 1200}),
         T("susclock", "TestC11ExecutorTimeout",
           {"checks": 10000, "shards": 2, "timeout": 300},
-          {"checks": 150000, "shards": 16, "timeout": 1500}),
+          {"checks": 60000, "shards": 16, "timeout": 1200}),
     ],
 }
 META = {
